@@ -1,5 +1,5 @@
-(* C09 (extension adele)  Letting time pass in one step or in several gives the same ticks and status, for the classes of Model/SpecAdele.v.  Times are integer ticks.  Entity level: C09_adele_programmed_additive: ProgrammedPeriodic.resolving (common_v.py) a then b = a+b (same entity, tick counts add) for every entity whose interval list is non-empty and positive; C09_adele_programmed_fuel / _fuel_independent: the specification loop never runs out of fuel and any sufficient fuel (the executable one used in correspondence runs) computes the same answer.  Component level: C09_adele_elapse_chunk: for every modelled class except AdeleOrderComponent, under wf_x (Periodic/Consumable well-formed, interval list positive, stack_per_period >= 0), the damage events of the two-step run are a permutation of those of the one-step run and the final states agree up to dead interval counters; C09_adele_elapse_chunk_views: hence validity, running and buff views agree.  C09_adele_wf_invariant: wf_x is preserved by every reducer of every class (Order included), so the theorems apply in every reachable state; C09_adele_elapsed_carries_time: every elapsed notification carries the elapse time (C06 clause).  AdeleOrderComponent: the full statement (same ticks) is FALSE of the shipped code, in two ways.  C09_adele_order_chunk_refuted: OrderSword.resolving caps the ticks of one call by int(time_left // interval) taken at the start of the call; witness with the shipped parameters of the skill (interval 1020, lasting 45000), the state right after an accepted use: 100 then 44800 gives 45 ticks and counter 1000, 44900 at once gives 44 ticks and counter -20.  C09_adele_order_chunk_refuted_capacity: a sword beyond the capacity (4 swords while the restore buff, owned by another component, has run out) is dropped at the END of the call, after ticking for the whole call: 100 then 9900 gives 31 ticks, 10000 at once gives 40 (same final state, no cap reached).  C09_adele_order_chunk_partial: largest true sub-statement: for a sword list within its capacity, (i) the cooldown, the remaining time of every surviving sword and all bound entities never depend on the chunking; (ii) if no sword reaches the cap in any of the three elapses (and counters are <= interval, an invariant) also the interval counters and the ticks agree.  C09_adele_order_chunk_views: hence the views of the class agree whatever the chunking.  C09_adele_order_invariant / _capacity: the invariant of (ii) is preserved, the capacity hypothesis is re-established by every accepted reducer of the class.  C09_adele_nonvacuous: a concrete programmed-periodic run. *)
-From Coq Require Import ZArith List Bool Permutation. From V.Model Require Import Comp SpecAdele. From V.Proofs Require Import CompReject CompChunk SpecAdelePG SpecAdeleReject SpecAdeleViews SpecAdeleChunk SpecAdeleOrder.
+(* C09 (extension adele)  Letting time pass in one step or in several gives the same ticks and status, for the classes of Model/SpecAdele.v.  Times are integer ticks.  Entity level: C09_adele_programmed_additive: ProgrammedPeriodic.resolving (common_v.py) a then b = a+b (same entity, tick counts add) for every entity whose interval list is non-empty and positive; C09_adele_programmed_fuel / _fuel_independent: the specification loop never runs out of fuel and any sufficient fuel (the executable one used in correspondence runs) computes the same answer.  C09_adele_order_resolving_additive: OrderSword.resolving (adele.py) a then b = a+b for EVERY sword list and capacity (same surviving swords with the same counters, tick counts add), only interval > 0.  Component level: C09_adele_elapse_chunk: for EVERY modelled class (no exception list: AdeleOrderComponent is inside the theorem after the repair 4d5f5f0 of a defect this check found, see below), under wf_x (Periodic/Consumable well-formed, interval list positive, and the two parameter conditions stack_per_period >= 0 and OrderSword.interval > 0), the damage events of the two-step run are a permutation of those of the one-step run and the final states agree up to dead interval counters; C09_adele_elapse_chunk_views: hence validity, running and buff views agree.  C09_adele_wf_invariant: wf_x is preserved by every reducer of every class, so the theorems apply in every reachable state; C09_adele_elapsed_carries_time: every elapsed notification carries the elapse time (C06 clause).  AdeleOrderComponent: the full statement used to be FALSE of the shipped code (known finding C09-adele-order-tick-cap, now fixed): OrderSword.resolving capped the ticks of one call by int(time_left // interval) taken at the start of the call, and dropped a sword beyond the capacity only at the END of the call after it had ticked for all of it.  Since 4d5f5f0 a sword ticks while it is alive (`while counter <= 0 and counter < time_left`) and swords beyond the capacity leave before ticking; the model follows the repaired code and the class needs no hypothesis beyond interval > 0 (no capacity, sortedness or counter invariant).  C09_adele_order_repaired: regression replay of the two old witnesses on the model: after an accepted use of an Order with interval 1020 lasting 45000, elapse 100 then 44800 and elapse 44900 both deal 45 ticks and leave the sword (1000, 100) (old code: 45 versus 44 ticks, counter 1000 versus -20); 4 swords over a capacity of 6, elapse 100 then 9900 and elapse 10000 both deal 30 ticks and leave 3 swords (old code: 31 versus 40); both witness states satisfy wf_x, the second one is outside the capacity.  C09_adele_order_fuel: with interval > 0 the executable reducer used in correspondence runs (count-based fuel (-counter)/interval + 2) never answers out-of-fuel for this class and equals the specification instance; C09_adele_order_capacity: every accepted reducer of the class leaves the sword list within the capacity.  C09_adele_nonvacuous: a concrete programmed-periodic run. *)
+From Coq Require Import ZArith List Bool Permutation. From V.Model Require Import Comp SpecAdele. From V.Proofs Require Import CompReject CompChunk SpecAdelePG SpecAdeleReject SpecAdeleViews SpecAdeleOrder SpecAdeleChunk SpecAdeleOrderFix.
 
 Theorem C09_adele_programmed_additive :
   forall (s : PG.T) (a b : Z),
@@ -23,7 +23,6 @@ Proof. exact @resolving_fuel_spec. Qed.
 Theorem C09_adele_elapse_chunk :
   forall (c : xcomp) (p : xpar) (a b : Z) (s s1 : xst) (e1 : list ev) 
           (s2 : xst) (e2 : list ev) (s3 : xst) (e3 : list ev),
-        xchunk_proved c = true ->
         wf_x p s ->
         0 <= a ->
         0 <= b ->
@@ -36,7 +35,6 @@ Proof. exact @xelapse_chunk. Qed.
 Theorem C09_adele_elapse_chunk_views :
   forall (c : xcomp) (p : xpar) (a b : Z) (s s1 : xst) (e1 : list ev) 
           (s2 : xst) (e2 : list ev) (s3 : xst) (e3 : list ev),
-        xchunk_proved c = true ->
         wf_x p s ->
         0 <= a ->
         0 <= b ->
@@ -63,84 +61,48 @@ Theorem C09_adele_elapsed_carries_time :
         xreduce_spec c XElapse p t s = Some (s', es) -> elapsed_times es = t :: nil.
 Proof. exact @xelapsed_carries_time. Qed.
 
-Theorem C09_adele_order_chunk_refuted :
-  exists
-          (p : xpar) (s0 s s1 : xst) (e1 : list ev) (s2 : xst) (e2 : list ev) 
-        (s3 : xst) (e3 : list ev) (a b : Z),
-          xreduce_spec Order XUse p 0 s0 = Some (s, dealt (p_pd1 (xp p)) :: EDelay 0 :: nil) /\
-          wf_x p s /\
-          order_inv p s /\
-          within_capacity p s /\
-          0 <= a /\
-          0 <= b /\
-          xreduce_spec Order XElapse p a s = Some (s1, e1) /\
-          xreduce_spec Order XElapse p b s1 = Some (s2, e2) /\
-          xreduce_spec Order XElapse p (a + b) s = Some (s3, e3) /\
-          length (dealts (e1 ++ e2)) = 45%nat /\
-          length (dealts e3) = 44%nat /\
-          ~ Permutation (dealts (e1 ++ e2)) (dealts e3) /\
-          x_sw s2 = (1000, 100) :: nil /\ x_sw s3 = (-20, 100) :: nil.
-Proof. exact @order_chunk_refuted. Qed.
-
-Theorem C09_adele_order_chunk_refuted_capacity :
-  exists
-          (p : xpar) (s s1 : xst) (e1 : list ev) (s2 : xst) (e2 : list ev) 
-        (s3 : xst) (e3 : list ev) (a b : Z),
-          order_inv p s /\
-          ~ within_capacity p s /\
-          0 <= a /\
-          0 <= b /\
-          xreduce_spec Order XElapse p a s = Some (s1, e1) /\
-          xreduce_spec Order XElapse p b s1 = Some (s2, e2) /\
-          xreduce_spec Order XElapse p (a + b) s = Some (s3, e3) /\
-          Forall (uncapped (xp_swi p) a) (x_sw s) /\
-          Forall (uncapped (xp_swi p) b) (x_sw s1) /\
-          Forall (uncapped (xp_swi p) (a + b)) (x_sw s) /\
-          length (dealts (e1 ++ e2)) = 31%nat /\ length (dealts e3) = 40%nat /\ s2 = s3.
-Proof. exact @order_chunk_refuted_capacity. Qed.
-
-Theorem C09_adele_order_chunk_partial :
-  forall (p : xpar) (a b : Z) (s s1 : xst) (e1 : list ev) (s2 : xst) 
-          (e2 : list ev) (s3 : xst) (e3 : list ev),
+Theorem C09_adele_order_resolving_additive :
+  forall (mx I a b : Z) (l : list sword),
+        0 < I ->
         0 <= a ->
         0 <= b ->
-        within_capacity p s ->
-        xreduce_spec Order XElapse p a s = Some (s1, e1) ->
-        xreduce_spec Order XElapse p b s1 = Some (s2, e2) ->
-        xreduce_spec Order XElapse p (a + b) s = Some (s3, e3) ->
-        (x_u s2 = x_u s3 /\
-         tls s2 = tls s3 /\
-         x_gauge s2 = x_gauge s3 /\ x_rl s2 = x_rl s3 /\ x_pg s2 = x_pg s3 /\ x_rlad s2 = x_rlad s3) /\
-        (order_inv p s ->
-         Forall (uncapped (xp_swi p) a) (x_sw s) ->
-         Forall (uncapped (xp_swi p) b) (x_sw s1) ->
-         Forall (uncapped (xp_swi p) (a + b)) (x_sw s) -> s2 = s3 /\ dealts (e1 ++ e2) = dealts e3).
-Proof. exact @order_chunk_partial. Qed.
+        fst (sw_resolve mx I b (fst (sw_resolve mx I a l))) = fst (sw_resolve mx I (a + b) l) /\
+        (snd (sw_resolve mx I a l) + snd (sw_resolve mx I b (fst (sw_resolve mx I a l))))%nat =
+        snd (sw_resolve mx I (a + b) l).
+Proof. exact @sw_resolve_add. Qed.
 
-Theorem C09_adele_order_chunk_views :
-  forall (p : xpar) (a b : Z) (s s1 : xst) (e1 : list ev) (s2 : xst) 
-          (e2 : list ev) (s3 : xst) (e3 : list ev),
-        0 <= a ->
-        0 <= b ->
-        within_capacity p s ->
-        xreduce_spec Order XElapse p a s = Some (s1, e1) ->
-        xreduce_spec Order XElapse p b s1 = Some (s2, e2) ->
-        xreduce_spec Order XElapse p (a + b) s = Some (s3, e3) ->
-        xview_validity Order p s2 = xview_validity Order p s3 /\
-        xview_running Order p s2 = xview_running Order p s3 /\
-        xview_buff Order p s2 = xview_buff Order p s3.
-Proof. exact @order_chunk_views. Qed.
-
-Theorem C09_adele_order_invariant :
-  forall (m : xmeth) (p : xpar) (t : Z) (s s' : xst) (es : list ev),
-        order_inv p s -> 0 <= t -> xreduce_spec Order m p t s = Some (s', es) -> order_inv p s'.
-Proof. exact @order_inv_preserved. Qed.
+Theorem C09_adele_order_fuel :
+  forall (m : xmeth) (p : xpar) (t : Z) (s : xst),
+        0 < xp_swi p ->
+        xexec_ok s t = true -> xreduce_exec Order m p t s = xreduce pe_exec pg_exec Order m p t s.
+Proof. exact @order_exec_spec. Qed.
 
 Theorem C09_adele_order_capacity :
   forall (m : xmeth) (p : xpar) (t : Z) (s s' : xst) (es : list ev),
         0 <= max_sw p s ->
         xreduce_spec Order m p t s = Some (s', es) -> rejected es = false -> within_capacity p s'.
 Proof. exact @order_capacity_established. Qed.
+
+Theorem C09_adele_order_repaired :
+  xreduce_spec Order XUse ord_p 0 ord_s0 =
+        Some (ord_s, dealt (p_pd1 (xp ord_p)) :: EDelay 0 :: nil) /\
+        wf_x ord_p ord_s /\
+        wf_x ord_p ord_s4 /\
+        within_capacity ord_p ord_s /\
+        ~ within_capacity ord_p ord_s4 /\
+        (exists (s1 : xst) (e1 : list ev) (s2 : xst) (e2 e3 : list ev),
+           xreduce_spec Order XElapse ord_p 100 ord_s = Some (s1, e1) /\
+           xreduce_spec Order XElapse ord_p 44800 s1 = Some (s2, e2) /\
+           xreduce_spec Order XElapse ord_p 44900 ord_s = Some (s2, e3) /\
+           dealts (e1 ++ e2) = dealts e3 /\
+           length (dealts e3) = 45%nat /\ x_sw s2 = (1000, 100) :: nil) /\
+        (exists (s1 : xst) (e1 : list ev) (s2 : xst) (e2 e3 : list ev),
+           xreduce_spec Order XElapse ord_p 100 ord_s4 = Some (s1, e1) /\
+           xreduce_spec Order XElapse ord_p 9900 s1 = Some (s2, e2) /\
+           xreduce_spec Order XElapse ord_p 10000 ord_s4 = Some (s2, e3) /\
+           dealts (e1 ++ e2) = dealts e3 /\
+           length (dealts e3) = 30%nat /\ length (x_sw s1) = 3%nat /\ length (x_sw s2) = 3%nat).
+Proof. exact @order_witnesses_repaired. Qed.
 
 Theorem C09_adele_nonvacuous :
   wf_x x_p0 x_s1 /\
@@ -215,10 +177,8 @@ Print Assumptions C09_adele_elapse_chunk.
 Print Assumptions C09_adele_elapse_chunk_views.
 Print Assumptions C09_adele_wf_invariant.
 Print Assumptions C09_adele_elapsed_carries_time.
-Print Assumptions C09_adele_order_chunk_refuted.
-Print Assumptions C09_adele_order_chunk_refuted_capacity.
-Print Assumptions C09_adele_order_chunk_partial.
-Print Assumptions C09_adele_order_chunk_views.
-Print Assumptions C09_adele_order_invariant.
+Print Assumptions C09_adele_order_resolving_additive.
+Print Assumptions C09_adele_order_fuel.
 Print Assumptions C09_adele_order_capacity.
+Print Assumptions C09_adele_order_repaired.
 Print Assumptions C09_adele_nonvacuous.
